@@ -469,4 +469,10 @@ def r5(F, R):
     c18.r5(F, R)
 
 
-RULES = [("R1", r1, None), ("R2", r2, None), ("R3", r3, None), ("R4", r4, None), ("R5", r5, None)]
+def r6_clone(F, R):
+    """Retry options travel by value (Copy / Clone) from the resolver to the queue and the attempt: a clone keeps count, delay and deadline."""
+    n = roles.check_clone_faithful_table(F, R, r"^runner::basic::RetryOptions|^event::Retries$", "clone-faithful")
+    R.floor(3)
+
+
+RULES = [("R1", r1, None), ("R2", r2, None), ("R3", r3, None), ("R4", r4, None), ("R5", r5, None), ("R6", r6_clone, None)]
